@@ -49,6 +49,10 @@ CLAIMED = {
  "C18": ("A bytecode verifier (decoder, control-flow graph, abstract stack-depth interpretation over all CFG paths whether or not an input can take them) is applied to the main body and every function body, both as compiled and as the machine will run them (public walkers, optimizer on and off), for every program of the control-flow and scope generators, "
          "15 templates whose integer literals are symbolic in [0,70000] at AST level (the solver picks operand bytes that look like opcodes and values on either side of the inline limit) and scripts with 20..27 constants before a function whose last instruction refers to the newest constant. Programs with more than 64 KiB of code (16-bit operand overflow) are outside the bound.", "4 C18"),
  "C19": ("Map-iteration order as a nondeterministic stub: every range over a Go map and every reflect MapKeys in lexer, parser, compiler, VM, objects and built-ins returns an arbitrary permutation (all permutations for maps of <= 4 entries, four representative orders above; one order per map object and size). 14 scripts (hash literals with alike-printing and duplicate keys, keys(), foreach, string()/print of nested hashes, three functions, map-typed host objects) are prepared and run twice under insertion order and again under arbitrary orders: constants, main and function code, results, host calls and output must be identical. Counterexamples are replayed natively by repetition (up to 300 tries).", "4 C19"),
+ "C10": ("Safety monitor inside the symbolic executor: it has no model for any function of os (other than Getenv and writes to standard output), os/exec, os/user, net*, syscall, io/fs, io/ioutil, plugin; a path that reaches one is a counterexample, which the native twin then confirms under strace (system calls diffed against a benign baseline; the time-zone database, /proc and /sys are allowed). "
+         "Sweep: every built-in that environment.New() registers (read at run time) with 0..3 arguments of all 8 types incl. hostile strings (paths, URLs, format strings); the name given to getenv is symbolic (2..5 upper-case letters, variable unset). Completeness guard: every call site of such a primitive in the library (from the SSA) must have been reached, otherwise the run says so. The monitor is also active in every other check.", "4 C10"),
+ "C11": ("Interleavings as solver variables: 2 (quick) / 3 goroutines (Run on one shared evaluator; or New+Prepare+Run on separate evaluators) are executed by the engine in every order with all heap-cell and map accesses and all mutex operations logged; for every conflicting pair of accesses the SMT solver is asked for a schedule - timestamps per event, program order, mutual exclusion of critical sections on the same mutex, every lock-protected read still seeing the write it saw - in which the two are adjacent (a data race). "
+         "Every predicted race is replayed with real goroutines under go test -race. Also: each object gets the sequential verdict and a per-run counter loses no update in every explored order. Six scripts using fields, variables, regexps, built-ins, foreach and a user function.", "4 C11"),
 }
 
 TECH = "bounded symbolic execution of the repository's go/ssa (own SSA interpreter fork) with SMT (z3/cvc5) deciding each path assertion; native replay of models"
